@@ -13,6 +13,7 @@ ADDENDA = {
  "C02": "A share of runs passes --require-owner / --show-duplicates; hostile scalars on the last line of a file; quoted UTF-8 label names with regexp metacharacters. Lone-CR documents (every position of the CR) are part of the stress set.",
  "C03": "Plus a stratum in which the base version of a touched file holds several identical copies of a rule, judged by counting (exactly min(base, head) copies keep an identical partner).",
  "C04": "Join templates include a many side that lost a label which a group_left/right(a, b) modifier copies back.",
+ "C05": "Plus bases in which one file is reached under its own name and through a symbolic link, with path-scoped configuration giving the two names different severities.",
  "C06": "Plus documents embedded one or two block scalars deep, and a caret monitor: the real InjectDiagnostics is rendered for sampled sub-ranges of every correctly positioned field (values with multi-byte characters mixed in) and the carets must sit under exactly the addressed characters. Also text hidden by ignore/line inside a literal block scalar and values containing ' #'.",
  "C07": "Plus pairs of comments for the same check (expired snooze before/after, same comment twice) and `pint watch` runs in which snoozes expire while the process lives, judged per iteration on the times pint itself recorded. Configurations with only the first rule block locked, and two Prometheus servers with different tags.",
  "C08": "Plus the flag combinations --offline --enabled N and --disabled N --offline. And --disabled N(server) for one instance of an online check on two servers, with and without --offline.",
